@@ -415,6 +415,79 @@ def resume_failure(c, o):
                     c["impl"], c["space"], c["k"], c["nb"], p, name, y, x))
     return None
 
+
+# --------------------------------------------------------------------------------------------------
+# pure-SLQ trace-log inside the ELBO: exact once the order reaches the operator dimension
+# --------------------------------------------------------------------------------------------------
+
+def slq_elbo_cases(ctx):
+    rng = ctx.rng(3404)
+    out = []
+    shapes = [(2, 4), (4, 2), (3, 3)] if ctx.quick else [(2, 4), (4, 2), (3, 3), (3, 6), (6, 3), (5, 4), (2, 5)]
+    for j, (nd, ns) in enumerate(shapes):
+        m = gen_model(rng, nd=nd, ns=ns)
+        if j < 2:       # axis-aligned response: diagonal operators, every probe gives the exact trace
+            R = np.zeros((nd, ns))
+            for i in range(min(nd, ns)):
+                R[i, i] = 2.0 + i
+            m["R"] = R.tolist()
+        for space in ("signal", "data"):
+            for req in (None, max(nd, ns) + 3):
+                out.append({"kind": "slq_elbo", "model": m, "space": space, "order": req, "seed": 3 + j})
+    return out
+
+
+def run_slq_elbo(c):
+    import jax
+    import jax.numpy as jnp
+    import nifty.re as jft
+    from nifty.re import evidence_lower_bound as elb
+    m = c["model"]
+    lh, smp, logZ, gap, Lam, pos, res = model_objects(m)
+    R, sig = np.array(m["R"]), np.array(m["sig"])
+    nd, ns = R.shape
+    seen = {}
+    real = elb._slq_gauss_radau
+
+    def rec(A, f, order, *a, **kw):
+        seen["order"] = int(order)
+        seen["n"] = int(kw.get("n"))
+        return real(A, f, order, *a, **kw)
+    K = 4
+    kw = dict(trace_log_method="slq", slq_num_samples=K, slq_key=int(c["seed"]), metric_jit=False,
+              output_directory=None, verbose=False, trace_log_space=c["space"])
+    if c["order"] is not None:
+        kw["slq_order"] = int(c["order"])
+    elb._slq_gauss_radau = rec
+    try:
+        e, st = jft.estimate_evidence_lower_bound(lh, smp, 0, **kw)
+    finally:
+        elb._slq_gauss_radau = real
+    Rn = R / sig[:, None]
+    if c["space"] == "signal":
+        Op, f = np.eye(ns) + Rn.T @ Rn, np.log
+    else:
+        Op, f = Rn @ Rn.T, np.log1p
+    n = Op.shape[0]
+    w, U = np.linalg.eigh(Op)
+    fOp = U @ np.diag(f(np.maximum(w, 0.0) if c["space"] == "data" else w)) @ U.T
+    z = np.asarray(jax.random.rademacher(jax.random.split(jax.random.PRNGKey(int(c["seed"])), 2)[0], shape=(K, n), dtype=jnp.float64))
+    want = float(np.mean([zz @ fOp @ zz for zz in z]))
+    requested = 64 if c["order"] is None else int(c["order"])
+    return {"got": float(st["trace_log_slq"]), "want": want, "order_used": seen.get("order"), "op_size": n,
+            "requested": requested, "logdet": float(np.linalg.slogdet(np.eye(ns) + Rn.T @ Rn)[1]),
+            "diag": bool(np.count_nonzero(Op - np.diag(np.diagonal(Op))) == 0)}
+
+
+def slq_elbo_failure(c, o):
+    tag = "%s space, %dx%d model, requested order %s" % (c["space"], len(c["model"]["d"]), len(c["model"]["R"][0]), c["order"] or "default (64)")
+    if abs(o["got"] - o["want"]) > 1e-7 * max(1.0, abs(o["want"])):
+        return ("slq-elbo-quadrature", "pure-SLQ trace-log (%s; order used %s, operator size %d) is %.12g, the mean of z^T f(A) z over its probes is %.12g" % (
+            tag, o["order_used"], o["op_size"], o["got"], o["want"]))
+    if o["diag"] and abs(o["got"] - o["logdet"]) > 1e-7 * max(1.0, abs(o["logdet"])):
+        return ("slq-elbo-quadrature", "pure-SLQ trace-log of a diagonal operator (%s) is %.12g, exact log-determinant %.12g" % (tag, o["got"], o["logdet"]))
+    return None
+
 # --------------------------------------------------------------------------------------------------
 # direct oracle
 # --------------------------------------------------------------------------------------------------
@@ -451,6 +524,8 @@ def direct_failure(c):
         return None
     if k == "resume":
         return resume_failure(c, run_resume(c))
+    if k == "slq_elbo":
+        return slq_elbo_failure(c, run_slq_elbo(c))
     if k == "slq":
         return _direct_slq(c)
     if k == "elbo_full":
@@ -571,8 +646,9 @@ class C34(C.Check):
         checks, meta, dist = [], [], {}
         self.cases = []
         nontriv = set()
-        cases = [c for c in ctx.corpus() if c.get("kind") in ("lanczos", "elbo", "resume")] + lanczos_cases(ctx) + elbo_cases(ctx) + resume_cases(ctx)
+        cases = [c for c in ctx.corpus() if c.get("kind") in ("lanczos", "elbo", "resume", "slq_elbo")] + lanczos_cases(ctx) + elbo_cases(ctx) + resume_cases(ctx) + slq_elbo_cases(ctx)
         self.resume_obs = []
+        self.slq_obs = []
         for c in cases:
             try:
                 if c["kind"] == "lanczos":
@@ -580,6 +656,11 @@ class C34(C.Check):
                     cs = lanczos_checks(c, o)
                     nst = int(np.sum(o["beta"] > 0))
                     nontriv.add(("lanczos", len(c["v"]), c["order"], nst < c["order"]))
+                elif c["kind"] == "slq_elbo":
+                    o = run_slq_elbo(c)
+                    cs = [("slq-order", "slq_order_case %d %d %d" % (o["requested"], o["op_size"], o["order_used"] if o["order_used"] is not None else 0))]
+                    self.slq_obs.append((c, o))
+                    nontriv.add(("slq_elbo", c["space"], o["op_size"], o["requested"], o["order_used"]))
                 elif c["kind"] == "resume":
                     o = run_resume(c)
                     cs = resume_checks(c, o)
@@ -614,7 +695,7 @@ class C34(C.Check):
         self.bad_cases = [meta[i][1] for i in bad]
         res.coverage.update({
             "evaluations": len(checks), "distinct_nontrivial": len(nontriv),
-            "rule": "SPD matrices B B^T + D with small-integer entries, diagonal ones, ones with two distinct eigenvalues (early breakdown), n = 2..6, integer start vectors (also inside invariant subspaces), order 1..n: alphas, basis vectors and every residual norm against the exact model; linear Gaussian models (3-5 data, 4-6 parameters), k < all eigenvalues in 1-3 batches: ELBO samples, lower_error, batch sizes fresh and resumed; resume suite: one-go run with saved eigensystem, then a resumed run from EVERY split point 1..k-1, nifty.re in signal and data space and nifty.cl, k < all and k = all eigenvalues: eigsh batch sizes against the model's schedule, exactly; distinct = (kind, n, order, breakdown) resp. (kind, k, batches) resp. (impl, space, k, batches, split, observed sizes)",
+            "rule": "SPD matrices B B^T + D with small-integer entries, diagonal ones, ones with two distinct eigenvalues (early breakdown), n = 2..6, integer start vectors (also inside invariant subspaces), order 1..n: alphas, basis vectors and every residual norm against the exact model; linear Gaussian models (3-5 data, 4-6 parameters), k < all eigenvalues in 1-3 batches: ELBO samples, lower_error, batch sizes fresh and resumed; resume suite: one-go run with saved eigensystem, then a resumed run from EVERY split point 1..k-1, nifty.re in signal and data space and nifty.cl, k < all and k = all eigenvalues: eigsh batch sizes against the model's schedule, exactly; distinct = (kind, n, order, breakdown) resp. (kind, k, batches) resp. (impl, space, k, batches, split, observed sizes); pure-SLQ ELBO (n_eigenvalues = 0) on non-square and square models in both spaces with the default and an over-large order: the order handed to _slq_gauss_radau against clamp_order, exactly",
             "samples": [_js({k: v for k, v in c.items() if not k.startswith("_")}) for c in self.cases[:2]],
             "input_distribution": dist, "disagreements": len(bad), "exhaustive": False,
         })
@@ -626,8 +707,15 @@ class C34(C.Check):
         todo = [c for c in getattr(self, "bad_cases", [])]
         n_hints = len(todo)
         todo += [c for c in ctx.corpus() if c.get("kind") in ("slq", "elbo_full")]
-        todo += [c for c in getattr(self, "cases", []) if c.get("kind") != "resume"]
+        todo += [c for c in getattr(self, "cases", []) if c.get("kind") not in ("resume", "slq_elbo")]
         n_res = 0
+        for c, o in getattr(self, "slq_obs", []):
+            n_res += 1
+            f = slq_elbo_failure(c, o)
+            if f:
+                res.add_failing({"fn": "slq_elbo", "class": f[0], "space": c["space"]}, f[1], _js(c))
+                if len(res.failing) >= 3:
+                    break
         for c, o in getattr(self, "resume_obs", []):
             n_res += 1
             f = resume_failure(c, o)
